@@ -261,6 +261,54 @@ func verifControlPRE2Bad(in io.Reader, n int) ([]string, error) {
 	return out, nil
 }
 
+// PRE-3: the completeness check compares a 1-based line counter, not the record counter
+func verifControlPRE3Bad(in io.Reader, n int) ([]string, error) {
+	s := bufio.NewScanner(in)
+	out := make([]string, n)
+	lineNo := 1
+	cur := 0
+	for s.Scan() && cur < n {
+		lineNo++
+		out[cur] = s.Text()
+		cur++
+	}
+	if s.Err() != nil {
+		return nil, s.Err()
+	}
+	if lineNo < n {
+		return nil, errors.New("short")
+	}
+	return out, nil
+}
+
+// CNT-1: the declared count is lowered to what a Len()-aware source still holds
+func verifControlCNT1Bad(in io.Reader) ([]uint32, error) {
+	var n uint32
+	if err := binary.Read(in, binary.LittleEndian, &n); err != nil {
+		return nil, err
+	}
+	if l, ok := in.(interface{ Len() int }); ok && int(n) > l.Len()/4 {
+		n = uint32(l.Len() / 4)
+	}
+	out := make([]uint32, n)
+	if err := binary.Read(in, binary.LittleEndian, &out); err != nil {
+		return nil, err
+	}
+	return out, nil
+}
+
+// CNT-1: copy() lets the tokens on the line clamp the declared count
+func verifControlCNT1CopyBad(in io.Reader, n int) ([]string, error) {
+	s := bufio.NewScanner(in)
+	if !s.Scan() {
+		return nil, io.ErrUnexpectedEOF
+	}
+	f := strings.Fields(s.Text())
+	out := make([]string, n)
+	copy(out, f)
+	return out, nil
+}
+
 // ---- must stay silent ------------------------------------------------------
 
 // checked Scan, ErrUnexpectedEOF, if err := …; err != nil, fmt.Errorf wrapping, continue after a consumed line
@@ -385,6 +433,48 @@ func verifControlGood9(in io.Reader, n int) ([]string, error) {
 			return nil, errors.New("short line")
 		}
 		out[i] = f[0] + f[1] + v
+	}
+	return out, nil
+}
+
+// only the capacity of the pre-allocation is clamped; the declared count bounds the loop
+func verifControlGood10(in io.Reader) ([]uint32, error) {
+	var n uint32
+	if err := binary.Read(in, binary.LittleEndian, &n); err != nil {
+		return nil, err
+	}
+	hint := n
+	if l, ok := in.(interface{ Len() int }); ok && int(hint) > l.Len()/4 {
+		hint = uint32(l.Len() / 4)
+	}
+	out := make([]uint32, 0, hint)
+	for i := uint32(0); i < n; i++ {
+		var v uint32
+		if err := binary.Read(in, binary.LittleEndian, &v); err != nil {
+			return nil, err
+		}
+		out = append(out, v)
+	}
+	return out, nil
+}
+
+// copy out of the tokens behind a test of their number; records counted in their own variable
+func verifControlGood11(in io.Reader, n int) ([]string, error) {
+	s := bufio.NewScanner(in)
+	out := make([]string, n)
+	lineNo, cur, stored := 1, 0, 0
+	for s.Scan() && cur < n {
+		lineNo++
+		f := strings.Fields(s.Text())
+		if len(f) < 1 {
+			return nil, fmt.Errorf("line %d: empty", lineNo)
+		}
+		copy(out[cur:cur+1], f)
+		cur++
+		stored++
+	}
+	if stored < n {
+		return nil, fmt.Errorf("input ends after line %d", lineNo)
 	}
 	return out, nil
 }
